@@ -1,7 +1,18 @@
 """C44 Every saved blob ends up in exactly one uploaded, indexed pack."""
+import json, os
 from props import repo_common
 
 
 def run(ctx):
-    out = ctx.go_test("internal/repository", "^TestVerif_C44$", timeout=3000)
-    return repo_common.finish_trace(ctx, out, "model_checking")
+    out = ctx.go_test("internal/repository", "^TestVerif_C44(Header)?$", timeout=3000)
+    # header entry limit: SaveBlob (HeaderFull) and the merge at Flush, judged by Fn_PackMerge.tla (its ASSUMEs
+    # are the scaled design check of the merge rule with the size-only twin refuted)
+    n, bad, lines = ctx.check_records("Fn_PackMerge", os.path.join(out, "recs_header.ndjson"), name="header")
+    for i in bad:
+        r = json.loads(lines[i - 1])
+        over = [c for c in r["counts"] if c > r["limit"]]
+        what = "pack-above-header-limit" if over else ("finalize-fails" if not all(r["final"]) else "blob-not-in-exactly-one-pack")
+        ctx.violate("upload/header-limit/%s" % what,
+                    "%d tiny blobs through two packers: queued packs hold %s blobs (limit %d), Finalize ok=%s, save_err=%s flush_err=%s" % (
+                        r["n"], r["counts"], r["limit"], r["final"], r["save_err"], r["flush_err"]), r)
+    return repo_common.finish_trace(ctx, out, "model_checking", extra_cov={"header_limit_sessions_checked_by_tlc": n})
